@@ -183,7 +183,7 @@ def generate(streams: core.Streams, tier: str) -> dict:
             c["forced_draws"] = list(forced)
         configs.append(c)
     return {"cls": gen.pick(s, ["SimBackend", "SimBackendNE", "SimBackendIn"]),
-            "format": fmt_force or gen.pick(s, ["default", "default", "alt"]),
+            "format": fmt_force or gen.pick(s, ["default", "default", "alt", "st"]),
             "validate": gen.chance(s, 0.3), "documents": docs, "pipeline": pipeline,
             "configs": configs, "kinds": sorted(kinds)}
 
